@@ -77,6 +77,65 @@ pub fn generate(rng: &mut Rng, tier: Tier, stats: &mut GenStats) -> Scenario {
             _ => {},
         }
     }
+    // A link that leads *up*: from a directory at or below the first walker's base to a directory
+    // strictly above that base. Under ReadTarget the walk passes through it (nothing it has entered
+    // so far is re-entered), finds the base again beneath it, and only the second encounter of the
+    // link is a cycle — the one error item a C02 scenario may contain, where the model says so.
+    let (mut tree, mut model) = (tree, model);
+    if g.rng.chance(1, 10) {
+        let b = walkers[0].base.clone();
+        let plain = Gen::plain_dirs(&model);
+        if !b.is_empty() && plain.contains(&b) {
+            let mut anc = vec![String::new()];
+            let mut p = parent(&b);
+            while !p.is_empty() {
+                anc.push(p.to_string());
+                p = parent(p);
+            }
+            let t = g.rng.pick(&anc).clone();
+            let under: Vec<String> = plain.iter().filter(|d| is_under(d, &b)).cloned().collect();
+            let d = g.rng.pick(&under).clone();
+            let nm = *g.rng.pick(&g.names.clone());
+            let path = join(&d, nm);
+            if !tree.iter().any(|n| n.path == path) && path.len() <= 3000 {
+                let target = if t.is_empty() {
+                    if g.rng.chance(1, 2) { R.to_string() } else { Gen::rel_target(&d, &t) }
+                }
+                else if g.rng.chance(1, 2) {
+                    format!("{}/{}", R, t)
+                }
+                else {
+                    Gen::rel_target(&d, &t)
+                };
+                let mut tree2 = tree.clone();
+                // (before any foreign node, which stay last)
+                let at = tree2.iter().position(|n| is_foreign(&n.path)).unwrap_or(tree2.len());
+                tree2.insert(at, Node { path, kind: Kind::Link { target }, mode: None });
+                if let Ok(model2) = Model::from_tree(&tree2) {
+                    let ok = walkers.iter().enumerate().all(|(k, w)| {
+                        let link = if k == 0 { Link::ReadTarget } else { w.link };
+                        let sp = Space::of(w, DUMMY_ROOT);
+                        let vs = model2.traverse(&sp.start, link, None);
+                        let Source::Glob { expr, rooted } = &w.source
+                        else {
+                            return false;
+                        };
+                        vs.len() <= 500
+                            && vs.iter().all(|v| model2.hops(&v.path) <= 30)
+                            && !link_into_prefix_path(&model2, &tree2, w)
+                            // (a walk that starts beyond a link starts with an empty stack of
+                            // ancestors, the model with the stack of the way there)
+                            && !prefix_touches_link(&model2, &w.base, expr, *rooted)
+                    });
+                    if ok {
+                        tree = tree2;
+                        model = model2;
+                        walkers[0].link = Link::ReadTarget;
+                    }
+                }
+            }
+        }
+    }
     let mut schedule = interleaving(g.rng, nw, tree.len());
     // sometimes one of two walkers is dropped half-way: the other must not notice
     if nw == 2 && !schedule.is_empty() && g.rng.chance(1, 4) {
@@ -209,7 +268,14 @@ pub fn check(sc: &Scenario, env: &mut Env) -> Result<Outcome, HarnessError> {
                 && expected.is_empty()
                 && (e.kind == "NotFound" || e.kind == "NotADirectory")
                 && e.wp.as_ref().map_or(true, |p| !model.is_dir_node(p));
-            if !root_gone {
+            // (a link that leads up above the base is a cycle at its second encounter: the model
+            // says where)
+            let cycle = e.cycle
+                && e.wp.as_ref().map_or(false, |p| visits.iter().any(|v| v.path == *p && matches!(v.fault, Some(crate::model::Fault::Cycle { .. }))));
+            if cycle {
+                out.probe("links:leading-up-above-the-base");
+            }
+            if !root_gone && !cycle {
                 out.violate(
                     "C02",
                     "no-error",
